@@ -63,6 +63,31 @@ func unspecifiedRules(c *ValCase) map[string]string {
 			out["OverlappingFieldsCanBeMerged"] = "a field with duplicate argument names"
 		}
 	}
+	// a response key that stands for __typename in one place and for another field elsewhere
+	// (several injections can produce it without the operator aimed at it): the edition's
+	// reference implementation does not shape-check the meta field
+	typenameKeys, otherKeys := map[string]bool{}, map[string]bool{}
+	var keysOf func(ss []*model.Sel)
+	keysOf = func(ss []*model.Sel) {
+		for _, x := range ss {
+			if x.K == "field" {
+				if x.Name == "__typename" {
+					typenameKeys[x.Key()] = true
+				} else {
+					otherKeys[x.Key()] = true
+				}
+			}
+			keysOf(x.Sel)
+		}
+	}
+	for _, def := range c.Doc.Defs {
+		keysOf(def.Sel)
+	}
+	for k := range typenameKeys {
+		if otherKeys[k] {
+			out["OverlappingFieldsCanBeMerged"] = "__typename against a field of another shape"
+		}
+	}
 	// Same-named fragments / variables with different definitions: the spec does not say
 	// which definition a reference resolves to (the reference takes the first, the library the last)
 	seen := map[string]string{}
